@@ -20,6 +20,7 @@ NO_UNWIND_KEYS = (
     "std::cmp::Ord::cmp", "std::cmp::PartialOrd::lt", "std::cmp::PartialEq::eq",
     "std::ops::Deref::deref", "std::ops::DerefMut::deref_mut",   # on Vec / ManuallyDrop: field access
     "std::thread::panicking",
+    "std::ops::Try::branch", "std::ops::FromResidual::from_residual",   # `?` on Option / Result: a match, no user code
     "std::cmp::Ordering::is_lt", "std::cmp::Ordering::is_le", "std::cmp::Ordering::is_gt", "std::cmp::Ordering::is_ge",
     "std::cmp::Ordering::is_eq", "std::cmp::Ordering::is_ne",
 )
